@@ -247,7 +247,7 @@ def wiring_der_tmpl(cname, mode):
 
 
 def jobs(tier, seed):
-    js = []
+    js = [Job("eg-validate", "harness.egcommon:validate_eg", tier=tier)]
     curves = E.toy_curves(tier)
     for i, tc in enumerate(curves):
         if tc["n"] > (13 if tier == "quick" else 43):
